@@ -8,10 +8,15 @@ Output line:  model-answer \t oracle-verdict
                              no panic; every span `@s:e` of the tree, every semantic token and the
                              diagnostic span satisfy s ≤ e ≤ |text| on character boundaries;
                              semantic tokens non-empty, increasing and disjoint
+  iso.resolve <hex>          resolve model on the model's parse for EVERY offset; oracle C32 on the
+                             implementation's dumped span tree and chains: tree well nested and of the
+                             shape T5 extracted; every chain is a root path of the tree whose non-root
+                             nodes contain the offset and whose last node has no child containing it
 -/
 import IsoVerif.Model.Util
 import IsoVerif.Model.IsoLex
 import IsoVerif.Model.IsoParse
+import IsoVerif.Model.Resolve
 
 open IsoVerif IsoVerif.Util IsoVerif.Lex IsoVerif.IsoLex IsoVerif.Gen.IsoTokens IsoVerif.IsoParse
 
@@ -187,11 +192,196 @@ def run (a impl : List String) : String :=
 
 end ParseDrv
 
+namespace ResolveDrv
+open IsoVerif.Resolve IsoVerif.Gen.ResolveShape
+
+/-! model side -/
+
+mutual
+  def dumpTree : Tree NodeKind → String
+    | .node k s e cs =>
+      let kids := dumpForest cs
+      s!"{k.name}@{s}:{e}" ++ (if kids.isEmpty then "" else "(" ++ String.intercalate "," kids ++ ")")
+  def dumpForest : Forest NodeKind → List String
+    | .nil => []
+    | .cons t ts => dumpTree t :: dumpForest ts
+end
+
+def chainStr (c : List (Link NodeKind)) : String :=
+  String.intercalate ">" (c.map fun l => s!"{l.kind.name}@{l.s}:{l.e}")
+
+/-- run-compress the chains of offsets `o, o+1, …, len` -/
+def runs (t : Tree NodeKind) (len : Nat) : String :=
+  let chains := (List.range (len + 1)).map fun o => chainStr (resolve o t)
+  let rec go (o : Nat) (cs : List String) (cur : Option (Nat × Nat × String)) (acc : List String) : List String :=
+    match cs with
+    | [] => (match cur with
+      | some (a, b, c) => (s!"{a}-{b}={c}" :: acc).reverse
+      | none => acc.reverse)
+    | c :: tl =>
+      match cur with
+      | some (a, b, c0) =>
+        if c0 == c then go (o + 1) tl (some (a, o, c0)) acc
+        else go (o + 1) tl (some (o, o, c)) (s!"{a}-{b}={c0}" :: acc)
+      | none => go (o + 1) tl (some (o, o, c)) acc
+  String.intercalate ";" (go 0 chains none [])
+
+/-! oracle side: the dumped generic tree and the chains of the implementation -/
+
+structure GNode where
+  kind : String
+  s : Nat
+  e : Nat
+  kids : Array GNode
+  deriving Inhabited
+
+partial def parseNode (cs : List Char) : Option (GNode × List Char) :=
+  let name := cs.takeWhile (fun c => c.isAlphanum)
+  let r := cs.dropWhile (fun c => c.isAlphanum)
+  match r with
+  | '@' :: r1 =>
+    let (a, r2) := ParseDrv.digitsOf r1
+    match r2 with
+    | ':' :: r3 =>
+      let (b, r4) := ParseDrv.digitsOf r3
+      if name.isEmpty || a.isEmpty || b.isEmpty then none else
+      let mk (kids : Array GNode) : GNode := ⟨String.ofList name, ParseDrv.natOf a, ParseDrv.natOf b, kids⟩
+      match r4 with
+      | '(' :: r5 =>
+        let rec kidsLoop (cs : List Char) (acc : Array GNode) : Option (Array GNode × List Char) :=
+          match parseNode cs with
+          | none => none
+          | some (k, rest) =>
+            match rest with
+            | ',' :: rest' => kidsLoop rest' (acc.push k)
+            | ')' :: rest' => some (acc.push k, rest')
+            | _ => none
+        match kidsLoop r5 #[] with
+        | some (kids, rest) => some (mk kids, rest)
+        | none => none
+      | _ => some (mk #[], r4)
+    | _ => none
+  | _ => none
+
+def inside (p c : GNode) : Bool := p.s ≤ c.s && c.e ≤ p.e && c.s ≤ c.e
+def apart (a b : GNode) : Bool := a.e ≤ b.s || b.e ≤ a.s
+
+partial def wellNested (n : GNode) : Bool :=
+  n.s ≤ n.e && n.kids.all (fun c => inside n c && wellNested c) &&
+  (List.range n.kids.size).all fun i => (List.range i).all fun j => apart n.kids[i]! n.kids[j]!
+
+/-- kinds a `#[resolve_field]` of inner type `t` can show up as -/
+def kindsOfInner (t : String) : List String :=
+  if t == "Selection" then ["ScalarSelection", "ObjectSelection"]
+  else if t == "VariableDeclaration" then ["VariableDeclarationInner"]
+  else if t == "TypeAnnotationDeclaration" then ["TypeAnnotation"]
+  else [t]
+
+/-- do the children kinds follow the `#[resolve_field]` fields T5 extracted? -/
+def shapeMatches : List (String × String × String) → List String → Bool
+  | [], ks => ks.isEmpty
+  | (_, shape, inner) :: fs, ks =>
+    let ok (k : String) := (kindsOfInner inner).contains k
+    if shape == "single" then
+      match ks with
+      | k :: tl => ok k && shapeMatches fs tl
+      | [] => false
+    else if shape == "option" then
+      match ks with
+      | k :: tl => if ok k then shapeMatches fs tl else shapeMatches fs ks
+      | [] => shapeMatches fs []
+    else shapeMatches fs (ks.dropWhile ok)
+
+partial def shapeOk (n : GNode) : Bool :=
+  let fields := match structs.lookup n.kind with
+    | some fs => fs
+    | none => []   -- wrappers and the hand-written TypeAnnotation impl: leaves
+  shapeMatches fields (n.kids.toList.map (·.kind)) && n.kids.all shapeOk
+
+def parseLink (s : String) : Option (String × Nat × Nat) :=
+  match s.splitOn "@" with
+  | [k, sp] => match sp.splitOn ":" with
+    | [a, b] => match a.toNat?, b.toNat? with
+      | some x, some y => some (k, x, y)
+      | _, _ => none
+    | _ => none
+  | _ => none
+
+/-- walk the chain (root first) down the dumped tree; returns the innermost node -/
+partial def walk (n : GNode) : List (String × Nat × Nat) → Option GNode
+  | [] => some n
+  | (k, s, e) :: tl =>
+    match n.kids.toList.find? (fun c => c.kind == k && c.s == s && c.e == e) with
+    | some c => walk c tl
+    | none => none
+
+def checkRun (root : GNode) (lo hi : Nat) (chain : String) : Option String :=
+  match (chain.splitOn ">").mapM parseLink with
+  | none => some "chain-syntax"
+  | some links =>
+    match links.reverse with
+    | [] => some "chain-empty"
+    | (k, s, e) :: below =>
+      if !(k == root.kind && s == root.s && e == root.e) then some "chain-root"
+      else if !(below.all fun (_, s, e) => s ≤ lo && hi ≤ e) then some "ancestor-not-containing"
+      else match walk root below with
+        | none => some "chain-not-a-path"
+        | some inner =>
+          -- the property proper: if the declaration contains the offset, so does the result, and no
+          -- resolvable child of the result contains any offset of the run
+          if inner.kids.any (fun c => c.s ≤ hi && lo ≤ c.e) then some "not-innermost" else none
+
+def oracle (text : List UInt8) (impl : List String) : String :=
+  match impl with
+  | ["panic"] => "bad:panic"
+  | ["noparse"] => "ok"
+  | ["tree", tree, rs] =>
+    match parseNode tree.toList with
+    | some (root, []) =>
+      if !wellNested root then "bad:not-nested"
+      else if !shapeOk root then "bad:shape"
+      else
+        let rec go (expect : Nat) : List String → String
+          | [] => if expect == text.length + 1 then "ok" else "bad:runs"
+          | r :: tl =>
+            match r.splitOn "=" with
+            | [range, chain] =>
+              match range.splitOn "-" with
+              | [a, b] =>
+                match a.toNat?, b.toNat? with
+                | some lo, some hi =>
+                  if lo != expect || hi < lo then "bad:runs"
+                  else match checkRun root lo hi chain with
+                    | some b => "bad:" ++ b
+                    | none => go (hi + 1) tl
+                | _, _ => "bad:runs"
+              | _ => "bad:runs"
+            | _ => "bad:runs"
+        go 0 (rs.splitOn ";")
+    | _ => "bad:tree-syntax"
+  | _ => "bad:unparsable-impl-answer"
+
+def run (a impl : List String) : String :=
+  match a with
+  | [h] => match hexDecode h with
+    | some s =>
+      let model := match parseIso s (some [120]) with
+        | .ok d => let t := astOf d; "tree " ++ dumpTree t ++ " " ++ runs t s.length
+        | .diag _ => "noparse"
+        | .panic _ => "panic"
+        | .fuel => "fuel"
+      model ++ "\t" ++ oracle s impl
+    | none => "bad-op\tok"
+  | _ => "bad-op\tok"
+
+end ResolveDrv
+
 def handle (fs : List String) : String :=
   let (req, impl) := splitArrow fs
   match req with
   | "iso.lex" :: args => LexDrv.run args impl
   | "iso.parse" :: args => ParseDrv.run args impl
+  | "iso.resolve" :: args => ResolveDrv.run args impl
   | _ => "bad-op\tok"
 
 def main : IO Unit := runDriver handle
